@@ -85,6 +85,25 @@ def build_queries(ck, fns, tables_json, programs, K, want=("schema", "size"), pe
     return queries, meta, stats
 
 
+def join_key_uniqueness(node):
+    """which sides of the ON equalities are columns flagged UNIQUE / PRIMARY KEY in the inputs: none | left | right | both"""
+    sides = set()
+
+    def walk(e):
+        if not isinstance(e, dict) or e.get("e") != "Function":
+            return
+        if e["f"] == "Eq" and all(a.get("e") == "Column" for a in e["args"]):
+            for a in e["args"]:
+                side, colname = a["path"][0], a["path"][-1]
+                inp = node["left"] if side == "_LEFT_" else node["right"]
+                if any(f["name"] == colname and f["constraint"] in ("Unique", "PrimaryKey") for f in inp["schema"]):
+                    sides.add("left" if side == "_LEFT_" else "right")
+        for a in e["args"]:
+            walk(a)
+    walk(node.get("on"))
+    return "both" if len(sides) == 2 else (sides.pop() if sides else "none")
+
+
 def render_node_sql(d, tables_json, node_json, info):
     """SQL (SQLite dialect) of an inner node: the root's rendering defines one CTE per node, select from the node's CTE"""
     sql = (info["rendered"] or {}).get("sqlite")
@@ -209,6 +228,8 @@ def main():
                 confirmed_nodes[(info["sql"], info["node"], "size")] = True
                 jk = node.get("kind", "")
                 key = "size=%s%s" % (node["k"], ("/" + jk) if jk else "")
+                if node["k"] == "Join":
+                    key += "/key-unique-on-" + join_key_uniqueness(node)
                 ck.violation(key, "`%s` node %s (%s): SQLite returns %d rows on %s, declared size %s" % (info["sql"], info["node"], node["k"], len(rows), shown_db, node["size"]),
                              dict(sql=info["sql"], node=info["node"], db=shown_db, rows=len(rows), declared=node["size"], rendered=sql))
             else:
